@@ -95,4 +95,279 @@ Proof.
 Qed.
 End Loop.
 
+
+(* ---------------------------------------------------------------- destination set-up, abstractly *)
+Lemma nth_map_seq {A} (g : nat -> A) n k x : k < n -> nth k (map g (seq 0 n)) x = g k.
+Proof.
+  intros H. rewrite nth_indep with (d' := g 0) by (rewrite map_length, seq_length; exact H).
+  rewrite (map_nth g (seq 0 n) 0 k). rewrite seq_nth by exact H. reflexivity.
+Qed.
+
+Lemma resize_cond_undef nr nc F :
+  (Z.of_nat (nr * nc) <= INT_MAX)%Z ->
+  resize_cond 0 (Z.of_nat nr) (Z.of_nat nc) (Z.of_nat F) = Some VUNDEF.
+Proof.
+  intros H. unfold resize_cond. cbn [vpt_of_Z validate_type]. rewrite !Nat2Z.id.
+  destruct (Z.leb_spec 0 (Z.of_nat nr)); [|lia]. destruct (Z.leb_spec 0 (Z.of_nat nc)); [|lia].
+  destruct (Z.leb_spec 0 (Z.of_nat F)); [|lia]. cbn [andb].
+  destruct (Z.leb_spec (Z.of_nat nr * Z.of_nat nc) INT_MAX); [reflexivity|lia].
+Qed.
+
+Definition copyz (din : vd) (np : nat) : bool := negb (Nat.ltb (ports V din) np).
+Definition setup_perf (din : vd) (np : nat) : bool :=
+  copyz din np && per_f V din && negb (Nat.eqb (freqs V din) 0).
+
+(* what the set-up leaves in the destination, whatever the destination held before *)
+Definition setup_facts (din : vd) (nr nc : nat) (b : arr) : Prop :=
+  let np := Nat.max nr nc in
+  a_ty V b = VUNDEF /\ a_rows V b = nr /\ a_cols V b = nc /\ a_freqs V b = freqs V din /\
+  a_perf V b = setup_perf din np /\
+  (forall i, a_fv V b i = if Nat.ltb i (freqs V din) then fv V din i else 0%Z) /\
+  (forall i j, a_dat V b i j = vzero) /\
+  (a_perf V b = false -> forall j, a_z0 V b j =
+      if copyz din np && negb (per_f V din) && Nat.ltb j np then z0v V din j else vdef) /\
+  (a_perf V b = true -> forall i j, a_fz0 V b i j =
+      if Nat.ltb i (freqs V din) && Nat.ltb j np then z0vv V din i j else vdef) /\
+  a_ftype V b = ftype V din /\ a_fmt V b = fmt V din /\ a_fprec V b = fprec V din /\ a_dprec V b = dprec V din.
+
+Lemma setup_spec din a0 nr nc :
+  Inv din -> (Z.of_nat (nr * nc) <= INT_MAX)%Z ->
+  exists b, spec_run_ok a0 (setup_ops V din nr nc) = (b, ok V) /\ setup_facts din nr nc b.
+Proof.
+  intros HI Hm. destruct HI as (_ & _ & _ & _ & _ & P1 & P2 & P3 & _).
+  unfold setup_ops. set (F := freqs V din). set (np := Nat.max nr nc).
+  cbn [spec_run_ok ArraySpec.spec_step]. unfold spec_init, spec_resize_op.
+  change (resize_cond 0 0 0 0) with (Some VUNDEF). cbn [fst].
+  rewrite (resize_cond_undef nr nc F Hm). cbn [o_ret ok snd]. rewrite !Nat2Z.id.
+  (* the array after init and set_frequency_vector *)
+  match goal with |- context [spec_run_ok ?x (_ ++ _)] => set (a2 := x) end.
+  assert (A2 : a_ty V a2 = VUNDEF /\ a_rows V a2 = nr /\ a_cols V a2 = nc /\ a_freqs V a2 = F /\
+               a_perf V a2 = false /\
+               (forall i, a_fv V a2 i = if Nat.ltb i F then fv V din i else 0%Z) /\
+               (forall i j, a_dat V a2 i j = vzero) /\ (forall j, a_z0 V a2 j = vdef)).
+  { subst a2. cbn -[Nat.ltb Nat.min Nat.max Nat.mul nth map seq]. repeat split; auto; intros.
+    - rewrite Nat.min_0_r. bd; auto; try lia; apply nth_map_seq; assumption.
+    - rewrite Nat.min_0_r. change (Nat.ltb i 0) with false. reflexivity.
+    - rewrite Nat.min_0_r. reflexivity. }
+  clearbody a2. destruct A2 as (T1 & T2 & T3 & T4 & T5 & T6 & T7 & T8).
+  assert (Pa : a_ports V a2 = np) by (unfold a_ports; rewrite T2, T3; reflexivity).
+  (* the z0 segment *)
+  assert (Z3 : exists a3,
+     spec_run_ok a2 (if Nat.ltb (ports V din) np then []
+                     else if per_f V din
+                          then map (fun f => OSetFz0Vec V (Z.of_nat f) (map (z0vv V din f) (seq 0 np))) (seq 0 F)
+                          else [OSetZ0Vec V (map (z0v V din) (seq 0 np))]) = (a3, ok V) /\
+     a_ty V a3 = VUNDEF /\ a_rows V a3 = nr /\ a_cols V a3 = nc /\ a_freqs V a3 = F /\
+     a_perf V a3 = setup_perf din np /\
+     (forall i, a_fv V a3 i = if Nat.ltb i F then fv V din i else 0%Z) /\
+     (forall i j, a_dat V a3 i j = vzero) /\
+     (a_perf V a3 = false -> forall j, a_z0 V a3 j =
+        if copyz din np && negb (per_f V din) && Nat.ltb j np then z0v V din j else vdef) /\
+     (a_perf V a3 = true -> forall i j, a_fz0 V a3 i j =
+        if Nat.ltb i F && Nat.ltb j np then z0vv V din i j else vdef)).
+  { unfold setup_perf, copyz. fold F.
+    destruct (Nat.ltb (ports V din) np) eqn:Ec; cbn [negb andb].
+    - exists a2. cbn. repeat split; auto; intros; try congruence; try apply T8.
+    - destruct (per_f V din) eqn:Ep; cbn [negb andb].
+      + destruct (fz0_loop (fun f => map (z0vv V din f) (seq 0 np)) F a2) as (b & Eb & Sb & B0 & B1); [lia|].
+        unfold fz0_op in Eb. exists b. split; [exact Eb|].
+        destruct Sb as (S1 & S2 & S3 & S4 & S5 & S6 & S7 & _).
+        rewrite S1, S2, S3, S4, S5, S6, S7.
+        destruct (Nat.eqb_spec F 0) as [E0|E0]; cbn [negb].
+        * rewrite (B0 E0). repeat split; auto; intros; try congruence; try apply T8.
+        * destruct (B1 E0) as [Q1 Q2]. repeat split; auto; intros; try congruence.
+          rewrite Q2, Pa. unfold fz0_base. rewrite T5.
+          bd; auto; try (rewrite nth_map_seq by assumption; reflexivity); apply T8.
+      + cbn [spec_run_ok ArraySpec.spec_step o_ret ok]. eexists. split; [reflexivity|].
+        cbn [with_z0 a_ty a_rows a_cols a_freqs a_perf a_fv a_dat a_z0 a_fz0].
+        repeat split; auto; intros; try congruence.
+        rewrite Pa. unfold z0_base. rewrite T5.
+        bd; auto; try (rewrite nth_map_seq by assumption; reflexivity); apply T8. }
+  destruct Z3 as (a3 & E3 & U1 & U2 & U3 & U4 & U5 & U6 & U7 & U8 & U9).
+  rewrite spec_run_ok_app, E3. cbn [snd fst o_ret ok].
+  cbn [spec_run_ok ArraySpec.spec_step].
+  destruct (Z.leb_spec 0 (ftype V din)); [|lia]. destruct (Z.leb_spec (ftype V din) 3); [|lia].
+  cbn [andb o_ret ok].
+  destruct (Z.ltb_spec (fprec V din) 1); [lia|]. cbn [o_ret ok].
+  destruct (Z.ltb_spec (dprec V din) 1); [lia|]. cbn [o_ret ok].
+  eexists. split; [reflexivity|].
+  unfold setup_facts. cbn [with_meta a_ty a_rows a_cols a_freqs a_perf a_fv a_dat a_z0 a_fz0 a_ftype a_fmt
+                          a_fprec a_dprec]. fold F np.
+  repeat split; auto.
+Qed.
+
+
+(* ---------------------------------------------------------------- set-up on the model *)
+Lemma setup_facts_transfer din nr nc a b :
+  ArraySpec.arr_eq V a b -> setup_facts din nr nc b -> setup_facts din nr nc a.
+Proof.
+  intros (E1 & E2 & E3 & E4 & E5 & Efv & Edat & Ez0 & Efz0 & E6 & E7 & E8 & E9)
+         (F1 & F2 & F3 & F4 & F5 & F6 & F7 & F8 & F9 & F10 & F11 & F12 & F13).
+  unfold setup_facts. rewrite E1, E2, E3, E4, E5, E6, E7, E8, E9.
+  repeat split; auto; intros.
+  - rewrite Efv. apply F6.
+  - rewrite Edat. apply F7.
+  - rewrite Ez0 by congruence. apply F8. assumption.
+  - rewrite Efz0 by congruence. apply F9. assumption.
+Qed.
+
+Lemma setup_out_facts din dout k :
+  Inv din -> Inv dout ->
+  (Z.of_nat (out_rows V din k * out_cols V din k) <= INT_MAX)%Z ->
+  let r := setup_out V vzero vdef fixed din dout k in
+  snd r = ok V /\ Inv (fst r) /\
+  setup_facts din (out_rows V din k) (out_cols V din k) (ArraySpec.abs V (fst r)).
+Proof.
+  intros HI HO Hm. cbv zeta. unfold setup_out.
+  destruct (run_ok_sim (setup_ops V din (out_rows V din k) (out_cols V din k)) dout (ArraySpec.abs V dout) HO
+              (refines_refl V dout)) as (E & R & I').
+  destruct (setup_spec din (ArraySpec.abs V dout) _ _ HI Hm) as (b & Eb & Fb).
+  rewrite Eb in E, R. cbn [fst snd] in E, R.
+  split; [exact E|]. split; [exact I'|].
+  eapply setup_facts_transfer; [exact R|exact Fb].
+Qed.
+
+(* ---------------------------------------------------------------- what conv_spec implies *)
+Lemma conv_spec_shape x y cs r c :
+  conv_spec x y = Some cs -> dim_ok (cs_dim cs) r c = true ->
+  match cs_kind cs with
+  | KSame => y = x
+  | KXtoY => r = c /\ validate_type y r c = true
+  | KXtoI => r = c /\ y = VZIN
+  end.
+Proof.
+  intros Ec Ed.
+  destruct x, y; cbv in Ec; try discriminate; injection Ec as <-; cbn in Ed |- *; auto;
+    try (apply Nat.eqb_eq in Ed; split; [exact Ed|]; try reflexivity; apply Nat.eqb_eq; exact Ed);
+    try (apply andb_true_iff in Ed; destruct Ed as [E1 E2]; apply Nat.eqb_eq in E1, E2; subst; split; reflexivity).
+Qed.
+
+Lemma inv_set_type d t :
+  Inv d -> validate_type t (rows V d) (cols V d) = true ->
+  Inv (set_dims V d t (rows V d) (cols V d) (freqs V d)).
+Proof.
+  intros (I1 & I2 & I3 & K & I4 & I5) Hv. unfold DataProofs.Inv, Clean, cells, ports in *. cbn. tauto.
+Qed.
+
+(* storing per-frequency results into the first len <= cells cells of the logical frequencies *)
+Lemma store_results_inv d nf len res :
+  Inv d -> nf <= freqs V d -> len <= cells V d -> Inv (store_results V vzero d nf len res).
+Proof.
+  intros HI Hf Hl. unfold store_results.
+  apply (inv_update V vzero vdef d); try reflexivity; try exact HI.
+  cbn -[Nat.ltb]. intros i j Hij. bd; auto; lia.
+Qed.
+
+Lemma copy_cells_inv din d :
+  Inv d -> freqs V din <= freqs V d -> cells V din <= cells V d -> Inv (copy_cells V din d).
+Proof.
+  intros HI Hf Hl. unfold copy_cells.
+  apply (inv_update V vzero vdef d); try reflexivity; try exact HI.
+  cbn -[Nat.ltb]. intros i j Hij. bd; auto; lia.
+Qed.
+
+
+(* ---------------------------------------------------------------- the result of vnadata_convert *)
+Section Result.
+Variable conv : fname -> nat -> list V -> list V -> list V.
+Notation convertf := (convert V vzero vdef fixed conv).
+
+Definition conv_len (din : vd) (cs : convsel) : nat :=
+  match cs_kind cs with KXtoI => rows V din | _ => rows V din * rows V din end.
+
+Definition conv_dat (din : vd) (cs : convsel) : nat -> nat -> V :=
+  match cs_kind cs with
+  | KSame => dat V din
+  | _ => fun i j => if Nat.ltb i (freqs V din) && Nat.ltb j (conv_len din cs)
+                    then nth j (nth i (conv_results V conv din cs) []) vzero else vzero
+  end.
+
+(* the array a conversion of din to type nt produces; pf = resulting z0 mode *)
+Definition conv_target (din : vd) (nt : vpt) (cs : convsel) (pf : bool) : arr :=
+  mkarr V nt (out_rows V din (cs_kind cs)) (out_cols V din (cs_kind cs)) (freqs V din) pf
+        (fv V din) (conv_dat din cs) (if per_f V din then (fun _ => vdef) else z0v V din) (z0vv V din)
+        (ftype V din) (fmt V din) (fprec V din) (dprec V din).
+
+Definition out_perf (din : vd) (cs : convsel) (same : bool) : bool :=
+  if same then per_f V din
+  else setup_perf din (Nat.max (out_rows V din (cs_kind cs)) (out_cols V din (cs_kind cs))).
+
+Lemma convert_result_inplace_xtoy d ntz nt cs :
+  Inv d -> vpt_of_Z ntz = Some nt -> conv_spec (ty V d) nt = Some cs ->
+  dim_ok (cs_dim cs) (rows V d) (cols V d) = true -> cs_kind cs = KXtoY ->
+  snd (convertf d d true ntz) = ok V /\ Inv (fst (convertf d d true ntz)) /\
+  ArraySpec.arr_eq V (ArraySpec.abs V (fst (convertf d d true ntz))) (conv_target d nt cs (per_f V d)).
+Proof.
+  intros HI Ht Hs Hd Hk.
+  pose proof (conv_spec_shape _ _ _ _ _ Hs Hd) as Sh. rewrite Hk in Sh. destruct Sh as [Hsq Hv].
+  pose proof HI as (I1 & I2 & I3 & (K1 & K2 & K3 & K4) & I4).
+  unfold convert. rewrite Ht, Hs, Hd, Hk. cbn [negb o_ret ok].
+  unfold cells, ports in *. rewrite <- Hsq in *. rewrite Nat.max_id in *.
+  destruct (Nat.leb_spec (freqs V d) (f_alloc V d)); [|lia].
+  destruct (Nat.leb_spec (rows V d * rows V d) (m_alloc V d)); [|lia].
+  destruct (Nat.leb_spec (rows V d) (p_alloc V d)); [|lia]. cbn [andb fst snd].
+  split; [reflexivity|]. split.
+  - apply (inv_set_type (store_results V vzero d (freqs V d) (rows V d * rows V d) (conv_results V conv d cs)) nt).
+    + apply store_results_inv; [exact HI|lia|unfold cells; rewrite <- Hsq; lia].
+    + cbn. rewrite <- ?Hsq. exact Hv.
+  - unfold ArraySpec.arr_eq, conv_target, conv_dat, conv_len, out_rows, out_cols, store_results. rewrite Hk.
+    cbn -[Nat.ltb nth conv_results]. repeat split; auto; intros.
+    + bd; auto; apply K2; lia.
+    + destruct (per_f V d); [discriminate|reflexivity].
+Qed.
+
+Lemma nn_ge n : n <= n * n.
+Proof. nia. Qed.
+
+Lemma convert_result_inplace_xtoi d ntz nt cs :
+  Inv d -> vpt_of_Z ntz = Some nt -> conv_spec (ty V d) nt = Some cs ->
+  dim_ok (cs_dim cs) (rows V d) (cols V d) = true -> cs_kind cs = KXtoI ->
+  snd (convertf d d true ntz) = ok V /\ Inv (fst (convertf d d true ntz)) /\
+  ArraySpec.arr_eq V (ArraySpec.abs V (fst (convertf d d true ntz))) (conv_target d nt cs (per_f V d)).
+Proof.
+  intros HI Ht Hs Hd Hk.
+  pose proof (conv_spec_shape _ _ _ _ _ Hs Hd) as Sh. rewrite Hk in Sh. destruct Sh as [Hsq Hz]. subst nt.
+  pose proof HI as (I1 & I2 & I3 & (K1 & K2 & K3 & K4) & I4 & I5 & I6 & I7 & I8).
+  unfold convert. rewrite Ht, Hs, Hd, Hk. cbn [negb o_ret ok q_d5 fixed].
+  pose proof (nn_ge (rows V d)) as Hnn.
+  unfold cells, ports in *. rewrite <- Hsq in *. rewrite Nat.max_id in *.
+  destruct (Nat.leb_spec (freqs V d) (f_alloc V d)); [|lia].
+  destruct (Nat.leb_spec (rows V d * rows V d) (m_alloc V d)); [|lia].
+  destruct (Nat.leb_spec (rows V d) (p_alloc V d)); [|lia].
+  destruct (Nat.leb_spec (rows V d) (m_alloc V d)); [|lia]. cbn [andb].
+  set (o2 := store_results V vzero d (freqs V d) (rows V d) (conv_results V conv d cs)).
+  assert (IO : Inv o2).
+  { apply store_results_inv; [exact HI|lia|unfold cells; rewrite <- Hsq; exact Hnn]. }
+  change (rows V o2) with (rows V d). change (cols V o2) with (cols V d). change (freqs V o2) with (freqs V d).
+  rewrite <- Hsq. rewrite Nat.ltb_irrefl.
+  pose proof (resize_dich V vzero vdef o2 ntz 1 (Z.of_nat (rows V d)) (Z.of_nat (freqs V d)) IO) as D.
+  assert (RC : resize_cond ntz 1 (Z.of_nat (rows V d)) (Z.of_nat (freqs V d)) = Some VZIN).
+  { unfold resize_cond. rewrite Ht. change (Z.to_nat 1) with 1. rewrite !Nat2Z.id. cbn [validate_type Nat.eqb].
+    destruct (Z.leb_spec 0 (Z.of_nat (rows V d))); [|lia]. destruct (Z.leb_spec 0 (Z.of_nat (freqs V d))); [|lia].
+    cbn [Z.leb andb]. destruct (Z.leb_spec (Z.of_nat 1 * Z.of_nat (rows V d)) INT_MAX); [reflexivity|lia]. }
+  rewrite RC in D. destruct D as [Ds _].
+  split; [exact Ds|]. split; [apply resize_inv; exact IO|].
+  assert (Hok : o_ret V (snd (resize V vzero vdef fixed o2 ntz 1 (Z.of_nat (rows V d)) (Z.of_nat (freqs V d)))) = ROk)
+    by (rewrite Ds; reflexivity).
+  destruct (resize_ok_spec V vzero vdef fixed o2 ntz 1 _ _ IO Hok) as (t' & Ht' & _ & _ & _ & _ & _ & HR).
+  assert (t' = VZIN) by congruence. subst t'. change (Z.to_nat 1) with 1 in HR. rewrite !Nat2Z.id in HR.
+  set (d' := fst (resize V vzero vdef fixed o2 ntz 1 (Z.of_nat (rows V d)) (Z.of_nat (freqs V d)))) in *.
+  clearbody d'.
+  destruct HR as (A1 & A2 & A3 & A4 & A5 & A6 & A7 & A8 & A9 & A10 & A11 & A12 & B1 & B2 & B3 & B4).
+  unfold ArraySpec.arr_eq, conv_target, conv_dat, conv_len, out_rows, out_cols. rewrite Hk.
+  cbn -[Nat.ltb nth conv_results]. rewrite <- Hsq, Nat.ltb_irrefl.
+  change (per_f V o2) with (per_f V d) in *. change (freqs V o2) with (freqs V d) in *.
+  change (fv V o2) with (fv V d) in *. change (z0v V o2) with (z0v V d) in *. change (z0vv V o2) with (z0vv V d) in *.
+  change (ports V o2) with (ports V d) in *. change (cells V o2) with (cells V d) in *.
+  unfold cells, ports in *. rewrite <- Hsq in *. rewrite Nat.max_id in *.
+  repeat split; auto; intros.
+  - rewrite B1. rewrite Nat.min_id. bd; auto. symmetry. apply K1. lia.
+  - rewrite B2. subst o2. unfold store_results. cbn -[Nat.ltb nth conv_results Nat.min].
+    Show. rewrite Nat.min_id. rewrite Nat.mul_1_l. rewrite (Nat.min_l _ _ Hnn). bd; auto; lia.
+  - rewrite B3 by congruence. destruct (per_f V d); [discriminate|].
+    bd; auto. symmetry. apply K3; auto. lia.
+  - rewrite B4 by congruence. bd; auto; symmetry; apply K4; auto; lia.
+Qed.
+
+End Result.
 End ConvertRefine.
